@@ -102,6 +102,8 @@ where
                     .name(format!("checker-{}", t))
                     .spawn(move || {
                         log::debug!("{}: Thread started.", t);
+                        #[cfg(getong_stateright_verif)]
+                        crate::verif::set_worker(t);
                         let mut pending = VecDeque::new();
                         loop {
                             // Step 1: Do work.
@@ -111,6 +113,8 @@ where
                                     crate::verif::yield_point(11);
                                     let jobs = job_broker.pop();
                                     if jobs.is_empty() {
+                                        #[cfg(getong_stateright_verif)]
+                                        crate::verif::trace(crate::verif::TR_STOP, 4, 0);
                                         log::debug!(
                                             "{}: No more work. Shutting down... gen={}",
                                             t,
@@ -138,6 +142,8 @@ where
                             if job_broker.is_shut_down() {
                                 // Timed out, or another worker stopped: observed once per
                                 // block even if this worker never shares or requests work.
+                                #[cfg(getong_stateright_verif)]
+                                crate::verif::trace(crate::verif::TR_STOP, 3, 0);
                                 log::debug!("{}: Market shut down. Shutting down...", t);
                                 return;
                             }
@@ -145,6 +151,8 @@ where
                                 &discoveries.iter().map(|r| *r.key()).collect(),
                                 &properties,
                             ) {
+                                #[cfg(getong_stateright_verif)]
+                                crate::verif::trace(crate::verif::TR_STOP, 1, 0);
                                 log::debug!(
                                     "{}: Discovery complete. Shutting down... gen={}",
                                     t,
@@ -154,6 +162,8 @@ where
                             }
                             if let Some(target_state_count) = target_state_count {
                                 if target_state_count.get() <= state_count.load(Ordering::Relaxed) {
+                                    #[cfg(getong_stateright_verif)]
+                                    crate::verif::trace(crate::verif::TR_STOP, 2, 0);
                                     log::debug!(
                                         "{}: Reached target state count. Shutting down... gen={}",
                                         t,
@@ -217,6 +227,8 @@ where
                 None => return,
                 Some(pair) => pair,
             };
+            #[cfg(getong_stateright_verif)]
+            crate::verif::trace(crate::verif::TR_TAKE, state_fp.get(), max_depth.get() as u64);
 
             if max_depth.get() > current_max_depth {
                 let _ = global_max_depth.compare_exchange(
@@ -243,6 +255,8 @@ where
             let mut is_awaiting_discoveries = false;
             for (i, property) in properties.iter().enumerate() {
                 if discoveries.contains_key(property.name) {
+                    #[cfg(getong_stateright_verif)]
+                    crate::verif::trace(crate::verif::TR_PROP, i as u64, 0);
                     // Stop tracking: the condition is no longer evaluated along this path, so
                     // a later terminal state must not replace the discovery.
                     ebits.remove(i);
@@ -256,8 +270,14 @@ where
                     } => {
                         if !always(model, &state) {
                             // Races other threads, but that's fine.
+                            #[cfg(getong_stateright_verif)]
+                            let _g = crate::verif::trace_guard();
+                            #[cfg(getong_stateright_verif)]
+                            crate::verif::trace(crate::verif::TR_PROP, i as u64, 1);
                             discoveries.insert(property.name, state_fp);
                         } else {
+                            #[cfg(getong_stateright_verif)]
+                            crate::verif::trace(crate::verif::TR_PROP, i as u64, 2);
                             is_awaiting_discoveries = true;
                         }
                     }
@@ -268,8 +288,14 @@ where
                     } => {
                         if sometimes(model, &state) {
                             // Races other threads, but that's fine.
+                            #[cfg(getong_stateright_verif)]
+                            let _g = crate::verif::trace_guard();
+                            #[cfg(getong_stateright_verif)]
+                            crate::verif::trace(crate::verif::TR_PROP, i as u64, 1);
                             discoveries.insert(property.name, state_fp);
                         } else {
+                            #[cfg(getong_stateright_verif)]
+                            crate::verif::trace(crate::verif::TR_PROP, i as u64, 2);
                             is_awaiting_discoveries = true;
                         }
                     }
@@ -283,6 +309,8 @@ where
                         // states, so if we are here it means we are still awaiting a corresponding
                         // discovery regardless of whether the eventually property is now satisfied
                         // (i.e. it might be falsifiable via a different path).
+                        #[cfg(getong_stateright_verif)]
+                        crate::verif::trace(crate::verif::TR_PROP, i as u64, 2);
                         is_awaiting_discoveries = true;
                         if eventually(model, &state) {
                             ebits.remove(i);
@@ -316,9 +344,15 @@ where
                 // that it holds in the path leading to the second visit -- another
                 // possible false-negative.
                 let next_fingerprint = fingerprint(&next_state);
+                #[cfg(getong_stateright_verif)]
+                let _g = crate::verif::trace_guard();
                 if let Entry::Vacant(next_entry) = generated.entry(next_fingerprint) {
+                    #[cfg(getong_stateright_verif)]
+                    crate::verif::trace(crate::verif::TR_EXPAND, next_fingerprint.get(), 1);
                     next_entry.insert(Some(state_fp));
                 } else {
+                    #[cfg(getong_stateright_verif)]
+                    crate::verif::trace(crate::verif::TR_EXPAND, next_fingerprint.get(), 0);
                     // FIXME: arriving at an already-known state may be a loop (in which case it
                     // could, in a fancier implementation, be considered a terminal state for
                     // purposes of eventually-property checking) but it might also be a join in
@@ -344,6 +378,10 @@ where
                 for (i, property) in properties.iter().enumerate() {
                     if ebits.contains(i) {
                         // Races other threads, but that's fine.
+                        #[cfg(getong_stateright_verif)]
+                        let _g = crate::verif::trace_guard();
+                        #[cfg(getong_stateright_verif)]
+                        crate::verif::trace(crate::verif::TR_RECORD, i as u64, 0);
                         discoveries.insert(property.name, state_fp);
                     }
                 }
